@@ -282,7 +282,9 @@ def target_zhit_steps():
                     err = ex; import traceback, os; os.environ.get("PYVC_TRACE") and traceback.print_exc()
                 n += 1
                 tag = f"[W={Wn},smoothing={smoothing},interpolation={interpolation},window={window},weights={'array' if with_weights else 'None'}]"
-                sess.check("exc-free", [], z3.BoolVal(err is None), 0, label=f"no abort from step accounting ({type(err).__name__ if err else 'ok'}){tag}")
+                ob = sess.check("exc-free", [], z3.BoolVal(err is None), 0, label=f"no abort from step accounting{tag}")
+                if err is not None:
+                    ob.detail = f"{type(err).__name__}: {str(err)[:120]}"
                 if err is None and made:
                     p = made[0]
                     sess.check("post", [], z3.BoolVal(0 <= p._i <= p._total), 0, label=f"0 <= steps taken ({p._i}) <= total ({p._total}){tag}")
